@@ -77,3 +77,46 @@ def replay_trace(data, oracle_list, *, manual=True):
                 bad += 1
     print("replay:", "violation reproduced" if bad else "no violation on this tree")
     return 1 if bad else 0
+
+
+def repo_suite_under_monitors(ctx, kind):
+    """Auxiliary workload (thorough tiers, shard 0): the maintainers' own tests run under rv.pytest_shadow;
+    problems of `kind` ('caps' | 'breaker' | 'budget' | 'events') reported by the plugin are violations."""
+    import json
+    import os
+    import subprocess
+    import sys
+    import tempfile
+
+    from .. import core, env
+
+    if ctx.shard != 0:
+        return
+    repo = env.repo_root()
+    if not os.path.isdir(os.path.join(repo, "tests")):
+        ctx.inc("repo_suite_not_available")
+        return
+    fd, out = tempfile.mkstemp(prefix="rv-shadow-", suffix=".json", dir=os.path.join(core.ROOT, ".work"))
+    os.close(fd)
+    envv = dict(os.environ, PYTHONPATH=core.ROOT + os.pathsep + os.path.join(repo, "src"), RV_SHADOW_OUT=out, PYTHONDONTWRITEBYTECODE="1")
+    try:
+        r = subprocess.run([sys.executable, "-m", "pytest", "-q", "-p", "no:cacheprovider", "--no-cov", "-p", "rv.pytest_shadow", "--timeout=600"],
+                           cwd=repo, env=envv, capture_output=True, text=True, timeout=1200)
+        data = json.load(open(out, encoding="utf-8"))
+    except Exception as x:  # noqa: BLE001
+        ctx.inc("repo_suite_under_monitors_failed_to_run")
+        ctx.cnt["repo_suite_note:" + type(x).__name__] += 1
+        return
+    finally:
+        try:
+            os.remove(out)
+        except OSError:
+            pass
+    ctx.inc("repo_suite_runs_under_monitors")
+    for k, v in data["stats"].items():
+        ctx.cnt["repo_suite:" + k] += v
+    for pr in data["problems"]:
+        if pr["kind"] == kind:
+            ctx.viol("maintainers-test-under-monitor:" + kind, f"[{pr['test']}] {pr['msg']}", {"shadow_plugin": pr})
+        elif pr["kind"] == "monitor-error":
+            ctx.cnt["repo_suite:monitor_errors"] += 1
